@@ -218,16 +218,14 @@ func (e *Engine) netBuiltin(env *Env, name string, ex *SExpr) (Val, bool) {
 	if v, ok := e.algBuiltin(env, name, ex); ok {
 		return v, true
 	}
-	if env.quant > 0 || env.st == nil {
+	if env.st == nil {
 		return Val{}, false
 	}
 	arg := func(i int) Val { return env.eval(ex.Args[i]) }
 	st := env.st
-	str := func(v Val) string {
-		if sortOf(v.T) == "Str" {
-			return v.S
-		}
-		return e.contentOf(st, v)
+	str := func(v Val) string { return env.content(v) }
+	if env.quant > 0 && (name == "concat" || name == "asn1") {
+		return Val{}, false
 	}
 	switch name {
 	case "tlsExporter":
